@@ -40,7 +40,7 @@ def _each(da, vals, lead):
 LEADS = [(), (("site", 2),)]
 
 
-@harness(P, quick=grid(g=QG + ["PS"], lead=[()]) + grid(g=["G3"], lead=[(("site", 2),)]), thorough=grid(g=TG, lead=[()]) + grid(g=["G1"], lead=[(("time", 2),)]))
+@harness(P, quick=grid(g=QG + ["PS", "S2W"], lead=[()]) + grid(g=["G3"], lead=[(("site", 2),)]), thorough=grid(g=TG, lead=[()]) + grid(g=["G1"], lead=[(("time", 2),)]))
 def heights(env, g, lead):
     """hs, hrms (tail on/off), oned, to_energy against the defining sums."""
     da, vals = _spec(env, g, lead)
